@@ -109,6 +109,10 @@ class C17(Check):
                      'out = once[0,1](' + ' + '.join(['xa'] * 30) + ' >= 1)']:
             for kind in KINDS:
                 cases.append({'f': P, 'n': 3, 'nv': 1, 'cols': [[1, 0, 2], [0, 0, 0]], 'times': [0, 1, 2], 'shape': 'big-values', 'kind': kind, 'perm': 0.5, 'text': full, 'full': 1})
+        # a sampling period that is zero or negative
+        for per in ([0, 's', 0.1], [-1, 's', 0.1], [0.0, 'ms', 0.1]):
+            for kind in ('discrete-offline', 'discrete-online'):
+                cases.append({'f': P, 'n': 3, 'nv': 1, 'cols': fml.gen_trace(rng, 2, 3), 'times': [0, 1, 2], 'shape': 'huge-bound', 'kind': kind, 'perm': 0.5, 'text': 'once[0,2](xa >= 1)', 'period': per})
         # assertion heads that end with a dot (one Identifier token): declared under one name, looked up under another
         for full in ['a. = (xa >= 1)', 'xb. = once(xa >= 1)']:
             for kind in KINDS:
@@ -154,6 +158,8 @@ class C17(Check):
         past = fml.has_future(f) and kind.endswith('online') and not any(s[0] in fml.UNB_FUTURE for s in fml.subformulas(f))
         if past:
             base['pastify'] = True
+        if c.get('period'):
+            base['period'] = c['period']
         if shape in ('huge-bound', 'big-values'):
             base['spec'] = c['text'] if c.get('full') else 'out = ' + c['text']
             base['pastify'] = kind.endswith('online') and ('always' in c['text'] or 'eventually' in c['text'])
@@ -245,7 +251,7 @@ class C17(Check):
         return [c['kind'], c['shape'], c.get('sem', 'standard')] + sorted(fml.ops(c['f']))
 
     def key(self, c):
-        return json.dumps([fml.to_sx(c['f']), c['kind'], c['shape'], c['n'], c.get('text')])
+        return json.dumps([fml.to_sx(c['f']), c['kind'], c['shape'], c['n'], c.get('text'), c.get('period')])
 
     def describe(self, c):
         return {'spec': 'out = ' + fml.to_text(c['f']), 'monitor': c['kind'], 'shape': c['shape'], 'n': c['n']}
